@@ -172,6 +172,10 @@ def _finish_pass(env, jb, kw, seed, want_props, res, agg, seen_names, S, core, l
         old["worst_rel_err"] = max(old.get("worst_rel_err", 0.0), xc.get("worst_rel_err", 0.0))
 
 
+class JobTimeout(BaseException):
+    pass
+
+
 def run_one(args):
     """worker: one (job, configuration)"""
     jobname, ci, seed, want_props = args
@@ -186,7 +190,9 @@ def run_one(args):
     import signal
 
     def _alarm(sig, frm):
-        raise TimeoutError("job exceeded its time budget of %d s" % budget)
+        # not an Exception: the replay / cross-check wrappers that swallow ordinary exceptions must not swallow the budget
+        signal.alarm(30)                     # and it fires again should anything still hold on to the job
+        raise JobTimeout("job exceeded its time budget of %d s" % budget)
     budget = int(os.environ.get("OASVERIF_JOB_TIMEOUT", "900"))
     signal.signal(signal.SIGALRM, _alarm)
     signal.alarm(budget)
@@ -213,7 +219,7 @@ def run_one(args):
             env = core.Env("sym", seed=seed, ranges=jb.ranges)
             try:
                 jb.fn(env, **kw)
-            except (S.OutsideFragment, TimeoutError, KeyboardInterrupt, MemoryError):
+            except (S.OutsideFragment, KeyboardInterrupt, MemoryError):
                 raise
             except Exception as e:
                 # an exception raised inside the repository's code: a violation only if the same contract, run natively on
@@ -235,6 +241,9 @@ def run_one(args):
         res["z3"] = agg["z3"]
         res["atoms"] = agg["atoms"]
         res["iv_boxes"] = agg.get("iv_boxes", 0)
+    except JobTimeout as e:
+        res["error"] = "TimeoutError: %s" % e
+        res["trace"] = traceback.format_exc()[-3000:]
     except Exception as e:
         res["error"] = "%s: %s" % (type(e).__name__, e)
         res["trace"] = traceback.format_exc()[-3000:]
